@@ -618,6 +618,23 @@ def eval_aggregate(e, env):
         return SV('int', z3.Sum([z3.If(g, Z(1), Z(0)) for g, _ in members]) if members else Z(0))
     if name == 'count' and len(args) > 1:
         raise Unmodelled('count of several expressions')
+    if name == 'group_concat':
+        # SQLite group_concat(X[, Y]): non-NULL values of X joined by Y (default ','), NULL when there is none; the order is the
+        # order in which rows are visited - modelled as slot order (replay inserts rows in slot order)
+        if distinct: raise Unmodelled('group_concat(DISTINCT ...)')
+        sep = z3.StringVal(',')
+        if len(args) > 1:
+            sv = ev(args[1], Env(env.ctx, env.rows, env.parent, None))
+            if sv.sort != 'str': raise Unmodelled('group_concat separator of sort %s' % sv.sort)
+            sep = sv.t
+        acc, started = z3.StringVal(''), FALSE
+        for g, menv in members:
+            v = ev(args[0], Env(menv.ctx, menv.rows, menv.parent, None))
+            if v.sort != 'str': raise Unmodelled('group_concat of %s' % v.sort)
+            live = z3.And(g, z3.Not(v.n))
+            acc = z3.If(live, z3.If(started, z3.Concat(acc, sep, v.t), v.t), acc)
+            started = z3.Or(started, live)
+        return SV('str', acc, z3.Not(started))
     vals = []
     for g, menv in members:
         v = ev(args[0], Env(menv.ctx, menv.rows, menv.parent, None))
